@@ -624,6 +624,109 @@ def spaces(tier, variant, seed):
     gb = [(p, na) for p in PRECS for na in range(1, (p + 127) // 64 + 2) if na <= 3 or not quick]
     sp.append(Space("mpf_get_str", gb, gs_cases, gs_one, "mpf_get_str: bases 2,10,16,62,-16 x requested digits 0,1,2,5,10,17,20 x mantissas x exponents (allocated string block == strlen+1)"))
 
+    # ---------------- operations on a variable whose precision was LOWERED with mpf_set_prec_raw: it still carries the limbs of the
+    # higher precision, so |size| > prec+1 is legal input for every function until the precision is restored; in place and not ------------
+    RAWP = ((192, 64), (192, 128), (256, 64), (256, 128), (256, 192), (448, 192), (448, 256), (448, 384)) if quick else \
+           tuple((P, q) for P in (192, 256, 320, 448, 768) for q in range(64, P, 64))
+    RAWOPS = ["add", "sub", "mul", "div", "div_rev", "sqrt", "mul_ui", "div_ui", "add_ui", "sub_ui", "ui_sub", "ui_div", "mul_2exp", "div_2exp", "neg", "abs", "floor", "ceil", "trunc", "set", "pow_ui"]
+    _raw = {}
+
+    def rw_cases(blk):
+        P, q = blk
+        PL = (P + 127) // 64 + 1          # limbs a variable of precision P may carry
+        for xl in sorted({PL, PL - 1, (q + 127) // 64 + 2}):
+            for xk in ("dense", "ones", "sqrt2"):
+                for vl in (1, 2, 3, 5):
+                    for oi in range(len(RAWOPS)):
+                        for mode in (0, 1, 2):          # 0: r separate, 1: r == x (in place), 2: r == v
+                            yield (P, q, xl, xk, vl, oi, mode)
+
+    def rw_one(case, R):
+        P, q, xl, xk, vl, oi, mode = case
+        op = RAWOPS[oi]
+        key = (P,)
+        if key not in _raw:
+            _raw[key] = (lib.F(P), lib.F(P), lib.F(P))
+        x, v, r0 = _raw[key]
+        if xk == "dense":
+            mx = al.PAT(xl, 3)["dense"] | (1 << (64 * xl - 1)) | 1
+        elif xk == "ones":
+            mx = al.ones(xl)
+        else:
+            mx = math.isqrt(2 << (2 * 64 * xl - 2)) | 1
+            mx &= al.ones(xl)
+            mx |= 1 << (64 * xl - 1)
+        mv = (al.PAT(vl, 7)["dense"] | (1 << (64 * vl - 1)) | 1) if vl > 1 else 7
+        x.set_raw(mx, 2, False)
+        v.set_raw(mv, 1, op in ("sub",))
+        vx, vv = x.get(), v.get()
+        r0.set_raw(M, 9, True)
+        if mode == 2 and op in ("sqrt", "mul_ui", "div_ui", "add_ui", "sub_ui", "ui_sub", "ui_div", "mul_2exp", "div_2exp", "neg", "abs", "floor", "ceil", "trunc", "set", "pow_ui"):
+            return None
+        # lower the precision of the destination (and of x when it is the destination) the documented way
+        dst = {0: r0, 1: x, 2: v}[mode]
+        f_set_prec_raw(x.p, q)
+        if dst is not x:
+            f_set_prec_raw(dst.p, q)
+        try:
+            if op in ("add", "sub", "mul", "div"):
+                f3[op](dst.p, x.p, v.p)
+                ex = {"add": vx + vv, "sub": vx - vv, "mul": vx * vv, "div": vx / vv}[op]
+            elif op == "div_rev":
+                f3["div"](dst.p, v.p, x.p)
+                ex = vv / vx
+            elif op == "sqrt":
+                f2["sqrt"](dst.p, x.p)
+                ex = None
+            elif op in ("mul_ui", "div_ui", "add_ui", "sub_ui"):
+                fui[op](dst.p, x.p, 1000003)
+                ex = {"mul_ui": vx * 1000003, "div_ui": vx / 1000003, "add_ui": vx + 1000003, "sub_ui": vx - 1000003}[op]
+            elif op in ("ui_sub", "ui_div"):
+                fuif[op](dst.p, 1000003, x.p)
+                ex = 1000003 - vx if op == "ui_sub" else Fraction(1000003) / vx
+            elif op in ("mul_2exp", "div_2exp"):
+                fui[op](dst.p, x.p, 77)
+                ex = vx * (1 << 77) if op == "mul_2exp" else vx / (1 << 77)
+            elif op == "pow_ui":
+                fui["pow_ui"](dst.p, x.p, 3)
+                ex = vx ** 3
+            else:
+                f2[op](dst.p, x.p)
+                ex = {"neg": -vx, "abs": abs(vx), "floor": Fraction(math.floor(vx)), "ceil": Fraction(math.ceil(vx)), "trunc": Fraction(math.trunc(vx)), "set": vx}[op]
+            what = "%s after mpf_set_prec_raw(%d) on a %d-bit variable, x %d limbs (%s), v %d limbs, mode %d" % (op, q, P, xl, xk, vl, mode)
+            pb = f_get_prec(dst.p)
+            if pb < q:
+                R.fail("mpf_get_prec", "%s: precision %d below %d" % (what, pb, q))
+            if ex is None:
+                got = dst.get()
+                m = dst.wf()
+                if m:
+                    R.fail("mpf_sqrt", "%s: %s" % (what, m))
+                elif not (got >= 0 and abs(got * got - vx) * (1 << (pb - 3)) < vx):
+                    R.fail("mpf_sqrt", "%s: square differs from the operand beyond the precision" % what)
+            elif mode == 1 and op in ("neg", "abs"):
+                # in place these only touch the sign: the variable keeps the limbs it legally carried before the call (more than the
+                # lowered prec+1), so the format is judged at the allocated precision; the value must be exact
+                f_set_prec_raw(x.p, P)
+                if dst.wf() or dst.get() != ex:
+                    R.fail("mpf_" + op, "%s: in place result not exact / ill-formed at the allocated precision: %s" % (what, dst.wf()))
+            else:
+                check(R, "mpf_" + op.replace("_rev", ""), dst, ex, pb, False, what)
+            if mode != 1 and x.get() != vx:
+                R.fail("mpf_" + op, "%s: operand x modified" % what)
+            if mode != 2 and v.get() != vv:
+                R.fail("mpf_" + op, "%s: operand v modified" % what)
+        finally:
+            f_set_prec_raw(x.p, P)
+            if dst is not x:
+                f_set_prec_raw(dst.p, P)
+        return (P, q, xl, vl, op, mode)
+
+    if variant != "asan":
+        sp.append(Space("mpf_ops_under_lowered_raw_precision", list(RAWP), rw_cases, rw_one,
+                        "21 operations with the destination (and an operand) lowered by mpf_set_prec_raw so that it carries more limbs than prec+1: "
+                        "(allocated, lowered) precisions x operand lengths x divisor/second operand of 1,2,3,5 limbs x (separate, in place on x, in place on v); precision restored before reuse"))
+
     # ---------------- precision histories (explicit-state BFS on real objects) ----------------
     HP = (64, 128, 192)
     HV = [Fraction(0), Fraction(1), Fraction(-3, 2), Fraction((1 << 190) + 1, 1 << 100), Fraction(M), Fraction(1, 3)]
